@@ -67,7 +67,7 @@ def rigid(t, inside=False):
 def terms_for(tier, strict=False):
     b = INFO["bounds"][tier]
     out = [(t, "T1", b["L_T1"]) for t in G.tier1()] + [(t, "T2", b["L_T2"]) for t in G.tier2(strict)] + [(t, "T3", b["L_T3"]) for t in G.tier3(strict)] \
-        + [(t, "T4", b["L_T2"]) for t in G.tier4()] + [(t, "X", b["L_T2"]) for t in extra_terms()]
+        + [(t, "T4", b["L_T2"]) for t in G.tier4()] + [(t, "X", b["L_T2"]) for t in extra_terms() + G.discard_terms()]
     if tier == "thorough":
         out += [(t, "T5", b["L_T5"]) for t in G.tier5(strict)]
     return out
@@ -105,6 +105,12 @@ def extra_terms():
         ["LazyStruct", [["a", B], ["b", ["VarInt"]], ["c", ["Bytes", 2]]]],
         ["LazyArray", 2, G.I(2, False, "b")],
         ["GreedyRange", G.I(2, False, "b")],
+        ["GreedyRange", ["LazyStruct", [["a", B], ["b", G.I(2, False, "b")]]]],
+        ["GreedyRange", ["LazyArray", 2, B]],
+        ["GreedyRange", ["Lazy", B]],
+        ["GreedyRange", ["LazyStruct", [["a", B], ["b", ["VarInt"]]]]],
+        ["Struct", [["n", B], ["v", ["Prefixed", B, ["GreedyRange", ["LazyStruct", [["a", B], ["b", B]]]], False]], ["t", B]]],
+        ["RepeatUntil", ["objfield", "a", "==", 1], ["LazyStruct", [["a", B], ["b", B]]]],
         ["GreedyRange", ["Struct", [["a", B], ["b", ["CString", "ascii"]]]]],
         ["Struct", [["a", ["RawCopy", G.I(2, False, "b")]], ["b", B]]],
         ["Struct", [["m", B], ["v", ["Aligned", ["this", "m"], B, b"\x00"]], ["t", B]]],
